@@ -7,7 +7,20 @@ package serialize
 
 // encoding / decoding an envelope never panics - whatever the message, with or without a user codec (codec == nil
 // is the default configuration), for every byte string
+// C11/C12 ("the envelope's system flag, sender and receiver survive unchanged", "the sender reference seen by the
+// receiver designates the original sender"): the ONE WriteFrom of the encoder receives, in this order, the message
+// name, the envelope's system flag, the sender's address and path, the receiver's address and path (empty strings
+// for an absent reference); the ONE ReadInto of the decoder stores the same positions into the results of the same
+// name. (That WriteFrom/ReadInto agree field by field for every value is the primitive round trip, C12.)
 //@ func EncodeEnvelopWithRemoting
+//@   ghostvar nm any
+//@   callspec MessageName sets nm = iface(result)
+//@   callspec WriteFrom requires len(arg1) == 6 && arg1[0] == nm && arg1[1] == iface(envSystem(envelop))
+//@   callspec WriteFrom requires arg1[2] == iface(senderAddr) && arg1[3] == iface(senderPath) && arg1[4] == iface(receiverAddr) && arg1[5] == iface(receiverPath)
+//@   callspec WriteFrom requires envSender(envelop) != nil ==> senderAddr == refAddress(envSender(envelop)) && senderPath == refPath(envSender(envelop))
+//@   callspec WriteFrom requires envSender(envelop) == nil ==> len(senderAddr) == 0 && len(senderPath) == 0
+//@   callspec WriteFrom requires envReceiver(envelop) != nil ==> receiverAddr == refAddress(envReceiver(envelop)) && receiverPath == refPath(envReceiver(envelop))
+//@   callspec WriteFrom requires envReceiver(envelop) == nil ==> len(receiverAddr) == 0 && len(receiverPath) == 0
 //@   callspec QueryMessageDesc ensures messages.regwf()
 //@   requires envelop != nil && messages.regwf()
 //@   requires envSender(envelop) != nil ==> !nilptr(envSender(envelop))
